@@ -46,7 +46,7 @@ import (
 // that matches no table pair (= the translator missed an access).
 //
 // Child: the daemon's activities, in-process, at high rate, on the REAL objects.  configuration.CurrentConfig is
-// filled like the loader would (3 sensors: hwmon, file, cmd; 6 curves incl. two PID and a function curve, 8 fans: 4 hwmon on one fake
+// filled like the loader would (3 sensors: hwmon, file, cmd; 6 curves incl. two PID and a function curve, 10 fans (two of them file fans whose pwm file does not exist yet = PWM not readable at start-up, one starting late): 4 hwmon on one fake
 // chip, 3 file, 1 cmd; every way of selecting the control algorithm: default PID x2, explicit pid, deprecated
 // controlLoop block, direct without limit x2, direct with limit x2) and the objects and controllers are created by
 // the REAL start-up glue of backend.go (initializeSensors / initializeCurves / initializeFans /
@@ -600,8 +600,13 @@ func raceSensorMon(ctx context.Context, wg *sync.WaitGroup, s sensors.Sensor) {
 	_ = internal.NewSensorMonitor(s, time.Millisecond).Run(ctx)
 }
 
-func raceFanRun(ctx context.Context, wg *sync.WaitGroup, c controller.FanController) {
+func raceFanRun(ctx context.Context, wg *sync.WaitGroup, c controller.FanController, startDelay time.Duration) {
 	defer wg.Done()
+	select {
+	case <-ctx.Done():
+		return
+	case <-time.After(startDelay):
+	}
 	// a controller whose control loop ends (failed curve evaluation / fan read -> restore) is started again, like
 	// the service manager restarting the daemon: prelude, then fresh RPM-monitor and control-loop actors
 	for ctx.Err() == nil {
@@ -767,6 +772,16 @@ func raceChild(ctx *Ctx) {
 				GetPwm: &configuration.ExecConfig{Exec: "/bin/echo", Args: []string{"97"}},
 				GetRpm: &configuration.ExecConfig{Exec: "/bin/echo", Args: []string{"1100"}}}},
 	}
+	// two fans whose PWM cannot be read back at start-up (file fans whose pwm file does not exist until fan2go writes
+	// it first), no pwmMap override, nothing persisted: their start-up takes the "assume the default PWM map" path of
+	// computePwmMapAutomatically and saves it; the second one starts late, while the first is already being controlled.
+	// (Not cmd fans without getPwm: FanCollector.Collect calls GetPwm on every fan and CmdFan.GetPwm dereferences the
+	// missing getPwm block - a scrape would panic the process.)
+	for _, id := range []string{"f_blind1", "f_blind2"} {
+		raceWrite(p(id+"_rpm"), 700)
+		cfg.Fans = append(cfg.Fans, configuration.FanConfig{ID: id, Curve: "c_lin", ControlAlgorithm: direct(&five),
+			File: &configuration.FileFanConfig{Path: p(id + "_newpwm"), RpmPath: p(id + "_rpm")}})
+	}
 	pers := persistence.NewPersistence(cfg.DbPath)
 	if err := pers.Init(); err != nil {
 		panic(err)
@@ -829,7 +844,11 @@ func raceChild(ctx *Ctx) {
 	}
 	for _, c := range ctrls {
 		wg.Add(1)
-		go raceFanRun(rctx, &wg, c)
+		delay := time.Duration(0)
+		if c.GetFanId() == "f_blind2" {
+			delay = time.Duration(ms) * time.Millisecond / 4
+		}
+		go raceFanRun(rctx, &wg, c, delay)
 	}
 	wg.Add(1)
 	go raceThirdParty(rctx, &wg, []string{p("pwm1"), p("pwm2"), p("pwm3"), p("f_file1_pwm"), p("temp1"), p("temp2")},
